@@ -354,6 +354,8 @@ def run(ck, tier):
     ck.guard(r8_datagram_destination, ck, cx)
     ck.guard(r8_one_datagram_per_framer_call, ck, cx)
     from ..share import import_findings
+    ck.rule('R12', 'after input the framer could not digest the receive loop drops it, so that the requests that follow are still answered (shared with C12 R1)')
+    import_findings(ck, 'C12', 'R12', ('R1',), 'every later request on that line gets no response', detail_prefixes=('no-reset-after',))
     ck.rule('R11', 'the unit filter handed to the framer is the current content of the context (shared with C10 R3): a hosted unit is not filtered out')
     import_findings(ck, 'C10', 'R11', ('R3',), 'a request for a unit the server hosts is dropped by the framer and never answered', detail_prefixes=('units-arg', 'single-arg'))
     ck.rule('R10', 'the ids copied into the response are the ids on the wire: MBAP header parsed with the format and codes it is built with (shared with C03 R2/R7)')
